@@ -1,7 +1,7 @@
 """C07 Each descriptor owned by an AsyncFd is closed exactly once, the right way."""
 import re
 
-from .kernel import (resolve_upvars, ExprBuilder, Loc, access_path, bool_call_switches, subexprs, variant_edges,
+from .kernel import (resolve_upvars, specialise_value, ExprBuilder, Loc, access_path, bool_call_switches, subexprs, variant_edges,
                      is_local, const_val)
 from . import families as fam
 from . import life
@@ -125,6 +125,9 @@ def r2_wrap_once(r, facts):
         for x in subexprs(e):
             if x[0] == 'proj':
                 for p in x[2]:
+                    mc = re.match(r'^\[(\d+)\]$', p)
+                    if mc:
+                        idx = int(mc.group(1))
                     m = re.match(r'^\[_(\d+)\]$', p)
                     if m:
                         d = g.single_def(int(m.group(1)))
@@ -359,14 +362,18 @@ def r5_encodings(r, facts):
     r.inst('from_raw sets bit 31 on the Direct edge: %s' % okb, fr.where())
     r.require(okb, 'AsyncFd::from_raw', 'from_raw does not set bit 31 exactly on the Kind::Direct edge', fr.where())
     kd = facts.fn('fd::AsyncFd::kind')
-    neg = bool_call_switches(kd, 'core::num::<impl i32>::is_negative')
-    okk = False
-    for c in neg:
-        for i, s in enumerate(kd.stmts(c['true'])):
-            if s['k'] == 'assign' and s['lhs']['l'] == 0 and s['rv']['k'] == 'agg' and s['rv'].get('variant') == 'Direct':
-                okk = True
-    r.inst('kind(): negative => Direct: %s' % okk, kd.where())
-    r.require(okk, 'AsyncFd::kind', 'kind() does not map a set sign bit to Kind::Direct', kd.where())
+    # decided by value (is_negative(), `fd & FLAG != 0`, `fd < 0` alike): with bit 31 of self.fd set only
+    # Kind::Direct is returned, with it clear only Kind::File
+    subjk = lambda x: fam.last_field(x) == 'fd'
+    okk = True
+    for v, want in ((5, 'File'), (0x80000005, 'Direct')):
+        g, decided = specialise_value(kd, subjk, v, ExprBuilder(kd), bits=32)
+        reach = g.reachable_blocks(0)
+        got = sorted({s_['rv'].get('variant') for loc, s_ in g.assigns() if loc[0] in reach and s_['lhs']['l'] == 0 and not s_['lhs']['p'] and s_['rv']['k'] == 'agg'})
+        r.inst('kind() with fd=%#x -> %s (%d branch(es) decided)' % (v, got, len(decided)), kd.where())
+        if got != [want] or not decided:
+            okk = False
+    r.require(okk, 'AsyncFd::kind', 'kind() does not map a set sign bit (and only that) to Kind::Direct', kd.where())
     r.floor(5)
 
 
@@ -383,7 +390,7 @@ def r6_close_self(r, facts):
             r.bad('AsyncFd::close/drop-glue', 'an AsyncFd is dropped inside close()', f.where(f.term_loc(b)))
         if not blk['cleanup'] and t['k'] == 'call' and (t.get('callee') or '') in ('std::mem::ManuallyDrop::<T>::drop', 'std::mem::ManuallyDrop::<T>::into_inner', 'std::ptr::drop_in_place'):
             r.bad('AsyncFd::close/unwrapped', 'the ManuallyDrop wrapper is undone in close() (%s)' % t.get('callee'), f.where(f.term_loc(b)))
-    reads = [(loc, t) for loc, t in f.calls() if (t.get('callee') or '') == 'std::ptr::read']
+    reads = [(loc, t) for loc, t in f.calls() if (t.get('callee') or '') in ('std::ptr::read', 'std::ptr::const_ptr::<impl *const T>::read', 'std::ptr::mut_ptr::<impl *mut T>::read', 'std::ptr::read_unaligned')]
     r.require(len(reads) == 1, 'AsyncFd::close/sq-read', 'sq is read out %d times (expected once)' % len(reads), f.where())
     news = [(loc, t) for loc, t in f.calls() if (t.get('callee') or '').endswith('::new') and 'Close' in (t.get('callee') or '')]
     if r.require(len(news) == 1, 'AsyncFd::close/Close::new', 'Close::new call not found', f.where()):
